@@ -8,7 +8,7 @@ from . import verify_common as vc
 from .common import Oracle, Suite, errname, hx, merge
 from .formats_common import cps
 
-GEN_UNITS = ["Verify", "Handlers", "ShaCrypt", "B64", "PyUnicode"]
+GEN_UNITS = ["Verify", "Handlers", "ShaCrypt", "B64", "PyUnicode", "FormatParsers", "LibpassAll", "ContextPolicy"]
 LEAN_TARGETS = ["PasslibVerif.Props.C08"]
 ASSUMPTIONS = [
     "that a string whose settings (salt, cost, ident) were altered yields a different checksum is a property of the digest primitives, explored on the real code",
